@@ -63,6 +63,12 @@ pub fn run_plan(r: &mut Report, plan: &Plan) {
             }
         };
         oracle::check_prog(prog, mode, acc, plan.judge_completeness, label);
+        // park is the one primitive with spurious wake-ups: also judge the schedules without them,
+        // where every return from park must be explained by an unpark
+        if *kind == 0 && prog.tasks.iter().flatten().any(|o| matches!(o, crate::prog::Op::Park)) {
+            oracle::check_prog(prog, Mode::EnumNoSpurious(plan.enum_cap), acc, plan.judge_completeness, &format!("{label}/no-spurious"));
+            acc.add("programs_checked_without_spurious_wakeups", 1);
+        }
     });
     for a in accs {
         a.merge_into(r);
